@@ -22,6 +22,11 @@ inductive XT where
   | leaf (box : Obb Float) (faces : List Nat)
   | node (box : Obb Float) (c1 c2 : XT)
 
+instance : Inhabited (Obb Float) := ⟨⟨⟨⟨⟨1, 0, 0⟩, ⟨0, 1, 0⟩, ⟨0, 0, 1⟩⟩, ⟨0, 0, 0⟩⟩, ⟨0, 0, 0⟩⟩⟩
+instance : Inhabited XT := ⟨.leaf default []⟩
+instance : Inhabited (BT Nat Float) := ⟨.leaf []⟩
+instance : Inhabited (V3 Float) := ⟨⟨0, 0, 0⟩⟩
+
 partial def parseTree (a : Array Float) (i : Nat) : XT × Nat :=
   let tag := a[i]!
   let box := obbAt a (i+1)
